@@ -30,13 +30,13 @@ def make_iv(B, C, D, t, **kw):
     return m, M
 
 
-def iv_stats(B, C, D, name, zero=False):
+def iv_stats(B, C, D, name, zero=False, pos=False):
     gmm = B.mod("gmm")
     s = gmm.GMMStats(C, D)
     if zero:
         s.n, s.sum_px, s.sum_pxx, s.t = B.np.zeros((C,)), B.np.zeros((C, D)), B.np.zeros((C, D)), 0
         return s, dict(n=[0] * C, F=[[0] * D for _ in range(C)], S=[[0] * D for _ in range(C)])
-    n = B.arr(name + "n", (C,), nonneg=True)
+    n = B.arr(name + "n", (C,), nonneg=not pos, pos=pos)
     F = B.arr(name + "F", (C, D))
     S = B.arr(name + "S", (C, D))
     s.n, s.sum_px, s.sum_pxx, s.t = B.copy(n), B.copy(F), B.copy(S), total([n[c] for c in range(C)])
